@@ -37,6 +37,8 @@ enum Job {
     UpdateOnly(Dyn<f64>, f64),
     Last(Dyn<f64>, u8),
     Clone(Dyn<f64>),
+    /// dst.clone_from(&src)
+    Restore(Dyn<f64>, Dyn<f64>),
     Drop(Dyn<f64>),
     Quit,
 }
@@ -44,6 +46,7 @@ enum Done {
     Update(Dyn<f64>, Result<Option<f64>, PanicInfo>),
     Last(Dyn<f64>, Result<Vec<Option<f64>>, PanicInfo>),
     Clone(Dyn<f64>, Result<Dyn<f64>, PanicInfo>),
+    Restore(Dyn<f64>, Dyn<f64>, Result<(), PanicInfo>),
     Drop(Result<(), PanicInfo>),
 }
 
@@ -77,6 +80,10 @@ fn do_job(j: Job) -> Option<Done> {
         Job::Clone(v) => {
             let c = try_clone(&v);
             Done::Clone(v, c)
+        }
+        Job::Restore(mut dst, src) => {
+            let r = guarded(|| dst.clone_from(&src));
+            Done::Restore(dst, src, r)
         }
         Job::Drop(v) => Done::Drop(try_drop(v)),
         Job::Quit => return None,
@@ -261,6 +268,8 @@ impl Prop for C17 {
         let p_drop = *r.pick(&[0.0, 0.005, 0.02]);
         let p_mig = if long_run { 0.0005 } else { *r.pick(&[0.0, 0.0, 0.02, 0.1]) };
         let p_obs = *r.pick(&[0.05, 0.15, 0.4]);
+        // restore: dst.clone_from(&src) between two live replicas of the same spec (twins, forks)
+        let p_restore = *r.pick(&[0.0, 0.0, 0.01, 0.04]);
         // silent deliveries: update() without a following last(); the canonical reference reads after every one
         let p_silent = *r.pick(&[0.0, 0.3, 0.7, 0.95]);
         let mut ev = vec![];
@@ -285,12 +294,24 @@ impl Prop for C17 {
                     feed_of.push(feeds.len() - 1);
                     cursor.push(0);
                 }
-            } else if x < p_fork + p_drop && live.len() > 1 {
+            } else if x < p_fork + p_restore {
+                let mates: Vec<usize> = live.iter().copied().filter(|k| *k != j && tree_of[*k] == tree_of[j]).collect();
+                if mates.is_empty() || !trees[tree_of[j]].cloneable() {
+                    continue;
+                }
+                let k = *r.pick(&mates);
+                ev.push(Ev::C { r: j as u8, src: k as u8 });
+                // afterwards j either shares src's remaining inputs or continues on its own feed
+                if r.chance(0.5) {
+                    feed_of[j] = feed_of[k];
+                    cursor[j] = cursor[k];
+                }
+            } else if x < p_fork + p_restore + p_drop && live.len() > 1 {
                 ev.push(Ev::X { r: j as u8 });
                 alive[j] = false;
-            } else if x < p_fork + p_drop + p_mig {
+            } else if x < p_fork + p_restore + p_drop + p_mig {
                 ev.push(Ev::M { r: j as u8, th: r.below(3) as u8 });
-            } else if x < p_fork + p_drop + p_mig + p_obs {
+            } else if x < p_fork + p_restore + p_drop + p_mig + p_obs {
                 ev.push(Ev::O { r: j as u8, k: 1 + r.below(5) as u8 });
             } else {
                 let f = &feeds[feed_of[j]];
@@ -498,6 +519,40 @@ impl Prop for C17 {
                         special = true;
                     }
                 }
+                Ev::C { src, .. } => {
+                    let s = src as usize;
+                    if s == r || s >= reps.len() || reps[s].view.is_none() || reps[s].tree != reps[r].tree || !sc.trees[reps[r].tree].cloneable() {
+                        continue;
+                    }
+                    let dst = reps[r].view.take().unwrap();
+                    let srcv = reps[s].view.take().unwrap();
+                    let home = reps[r].home;
+                    match helpers.run(home, Job::Restore(dst, srcv)) {
+                        Done::Restore(dst, srcv, res) => {
+                            reps[r].view = Some(dst);
+                            reps[s].view = Some(srcv);
+                            if res.is_err() {
+                                panicked = true;
+                                break 'ev;
+                            }
+                        }
+                        _ => unreachable!(),
+                    }
+                    // from here on r's history is src's history
+                    let n_ops = reps[s].ops.len();
+                    let (ops, obs) = (reps[s].ops.clone(), reps[s].obs.clone());
+                    let had = reps[r].ops.iter().filter(|o| matches!(o, Op::D(_) | Op::U(_))).count();
+                    if had > 0 {
+                        out.stats.hit("reach.restore_into_used_instance");
+                    } else {
+                        out.stats.hit("reach.restore_into_fresh_instance");
+                    }
+                    reps[r].ops = ops;
+                    reps[r].obs = obs;
+                    reps[r].forked_at = Some(n_ops);
+                    out.stats.hit("ev.restore_clone_from");
+                    special = true;
+                }
                 Ev::L { .. } => {}
             }
             let _ = step;
@@ -577,7 +632,7 @@ impl Prop for C17 {
     }
 
     fn rule(&self) -> String {
-        "2-4 initial replicas per run: with probability 0.6 replicas 0 and 1 are twins (same spec, same feed); the others are the same tree with other window lengths or unrelated trees, alive at the same time. The seeded scheduler picks a live replica and an event: Deliver (own feed cursor; with a per-run probability of 0/0.3/0.7/0.95 the delivery is silent, i.e. update() without a following last()), Observe (last() 1-5 times), Fork (clone; the clone either shares the parent's remaining inputs or gets a divergent feed), Drop, Migrate (subsequent operations of that replica execute on one of two helper OS threads, baton hand-off so exactly one thread runs). After the run every replica's complete observation log is compared bit for bit with a canonical isolated reference computed on a fresh thread: a fresh instance of the same spec fed only that replica's deliveries (a clone's reference replays the parent's history up to the fork) with exactly one last() after every delivery (also after the ones the replica delivered silently), so a last() whose being called or not called changes later results shows up; repeated last() results must equal the latest post-delivery value. The check script additionally runs the whole batch in separate processes with 16 and 3 workers and compares batch hashes. distinct = distinct (topologies, event-kind schedule); non-trivial = a fork, drop, migration or repeated last() fired and a delivery was checked after it."
+        "2-4 initial replicas per run: with probability 0.6 replicas 0 and 1 are twins (same spec, same feed); the others are the same tree with other window lengths or unrelated trees, alive at the same time. The seeded scheduler picks a live replica and an event: Deliver (own feed cursor; with a per-run probability of 0/0.3/0.7/0.95 the delivery is silent, i.e. update() without a following last()), Observe (last() 1-5 times), Fork (clone; the clone either shares the parent's remaining inputs or gets a divergent feed), Restore (dst.clone_from(&src) between two live replicas of the same spec, into fresh and into used instances), Drop, Migrate (subsequent operations of that replica execute on one of two helper OS threads, baton hand-off so exactly one thread runs). After the run every replica's complete observation log is compared bit for bit with a canonical isolated reference computed on a fresh thread: a fresh instance of the same spec fed only that replica's deliveries (a clone's reference replays the parent's history up to the fork) with exactly one last() after every delivery (also after the ones the replica delivered silently), so a last() whose being called or not called changes later results shows up; repeated last() results must equal the latest post-delivery value. The check script additionally runs the whole batch in separate processes with 16 and 3 workers and compares batch hashes. distinct = distinct (topologies, event-kind schedule); non-trivial = a fork, drop, migration or repeated last() fired and a delivery was checked after it."
             .into()
     }
     fn assumptions(&self) -> Vec<String> {
@@ -588,6 +643,6 @@ impl Prop for C17 {
         ]
     }
     fn must_reach(&self, _t: Tier) -> Vec<&'static str> {
-        vec!["ev.fork", "ev.drop", "ev.migrate", "ev.deliver_silent", "reach.op_on_helper_thread", "reach.clone_during_warmup", "reach.clone_after_warmup", "reach.delivery_to_clone"]
+        vec!["ev.fork", "ev.drop", "ev.migrate", "ev.deliver_silent", "ev.restore_clone_from", "reach.restore_into_used_instance", "reach.op_on_helper_thread", "reach.clone_during_warmup", "reach.clone_after_warmup", "reach.delivery_to_clone"]
     }
 }
